@@ -325,6 +325,16 @@ def run(case):
             feats.append('variant_priority_above_include')
             if inplace[0] == 'ok' and got14[:2] != inplace[:2]:
                 vio.append({'mech': 'priority-above-include-not-applied', 'what': f'{pre14!r}, then {tag} {{{case["key"]}: !include <file>}}, then {pre14!r} again -> {util.short(got14[1:], 300)}; with the content of the file written in place of the include -> {util.short(_plain(inplace[2]), 300)}; {what}'})
+        # ---------------- '!notnew' above the include: what the file writes is checked against the config it is placed in, like
+        #                  the same content written in place
+        if d0 and not any(n['t'] == 'sp' for _, n in emit.walk(d0)) and d0.get('new') is not False and with_probe(utexts[0], [], 0) is not None and case['probe_doc'] != 0:
+            m18 = os.path.join(mdir, 'master18.yaml')
+            write(m18, pre_text + f'--- !notnew\n{case["key"]}: !include {rel(mdir, upaths[0])}\n')
+            got18 = observe(lambda: Config.build(m18))
+            inplace18 = observe(lambda: lib.build([pre_text, emit.emit(M([[case['key'], copy.deepcopy(d0)]], new=False), 'flow')]))
+            feats.append('variant_notnew_above_include')
+            if inplace18[0] == 'ok' and got18[:2] != inplace18[:2]:
+                vio.append({'mech': 'notnew-above-include-differs', 'what': f'{pre_text!r}, then !notnew {{{case["key"]}: !include <file>}} -> {util.short(got18[1:], 300)}; with the content of the file written in place of the include -> {util.short(_plain(inplace18[2]), 300)}; {what}'})
         # ---------------- look-up order: decoys in the working directory
         if case['decoy_mode'] != 'none' and base[0] == 'ok':
             names = [f['name'] for f in case['files']]
